@@ -3,7 +3,7 @@
    Tables, dispatch bounds and low-end constants come from gen/Tables.v = the current source text of /repo. *)
 From Coq Require Import ZArith.
 Require Import C12.gen.Tables.
-From C12 Require Import PrimeB Model ProofsSweep ProofsTable ProofsTab12 ProofsPrimes16 ProofsPPTable ProofsNext ProofsFactor ProofsDivisors ProofsDivisorsNoDup ProofsPower ProofsComplete ProofsSetForms ModelScript ProofsScript ProofsDecide.
+From C12 Require Import PrimeB Model ProofsSweep ProofsTable ProofsTab12 ProofsPrimes16 ProofsPPTable ProofsNext ProofsFactor ProofsDivisors ProofsDivisorsNoDup ProofsPower ProofsComplete ProofsSetForms ModelScript ProofsScript ProofsDecide ModelErat ProofsErat ProofsTerminate.
 Local Open Scope Z_scope.
 
 Theorem C12_isprime_exact_below_65536 : Isprime_table_stmt.          Proof. exact isprime_table. Qed.
@@ -74,3 +74,7 @@ Theorem C12_miller_witness_zero : Miller_zero_stmt.                          Pro
 Print Assumptions C12_miller_witness_zero.
 Theorem C12_isprimepower_decides : Isprimepower_decides_stmt.                Proof. exact isprimepower_decides. Qed.
 Print Assumptions C12_isprimepower_decides.
+Theorem C12_isprimepower_terminates : Isprimepower_terminates_stmt.         Proof. exact isprimepower_terminates. Qed.
+Print Assumptions C12_isprimepower_terminates.
+Theorem C12_erathostene_distinct_primes_below_1025_partial : Erat_partial_stmt. Proof. exact erat_partial. Qed.
+Print Assumptions C12_erathostene_distinct_primes_below_1025_partial.
